@@ -293,7 +293,10 @@ class OrderedClosure(set):
         return iter(list(self._order))
 
 
-_orig_get_closure = LTLMC._get_closure
+# harness-side control point; if the library no longer has a private helper of this name the closure
+# order cannot be owned and the closure shards report that instead of guessing (naming, list-order and
+# hash-seed presentations still apply)
+_orig_get_closure = getattr(LTLMC, '_get_closure', None)
 _CL = {'order_fn': None}
 
 
@@ -324,6 +327,9 @@ def sort_key(a):
 
 def closure_orders(k, f, acc, inst, max_orders, route='LTL'):
     """Run LTL.modelcheck under every permutation of each height tie group of the closure."""
+    if _orig_get_closure is None:
+        acc.add('closure_control_point_absent')
+        return
     LTLMC._get_closure = _closure_wrapper
     try:
         # discover the closure once (default order), then enumerate orders
@@ -414,6 +420,9 @@ def successor_orders(k, c, f, inst):
     for combo in itertools.product(*[list(itertools.permutations(succ[i])) for i in keys]):
         for node_order in (list(range(k.n)), list(range(k.n))[::-1]):
             Kl = mk(k, list(range(k.n)), S_order=node_order)
+            if not lib.owns_adjacency(Kl):
+                inst.acc.add('successor_control_point_absent')
+                return
             for i in keys:
                 Kl._next[i] = OrderedSet(combo[i])
             r = back(run_mc(c, Kl, f), list(range(k.n)))
